@@ -49,6 +49,12 @@ CHECKS = {
  "C19": ("exploration", "stateful model-based property testing (Option<checkpoint> model)",
          "Generated sequences of commits, edits, updates (no flags / --id sha / --id token / -p), show, delete, out delete --all, analyze and run; show must equal the last update's result, updates without --id must record git's HEAD, and without a checkpoint analyze/run must cover every target.",
          "analyze/run are judged only in the no-checkpoint state here", "4/C19"),
+ "C08": ("exploration", "round-trip property testing under a virtual clock (proptest + tokio paused time) and in real time through the CLI",
+         "Generated write/pause scripts on 2-8 concurrent streams drive the real process_reader + Compressor through the capture hook under tokio's paused clock with a seeded select order, and the same scripts run as real helper processes under `monorail run`; every stored .zst must decode to exactly the bytes written, and log show must print one header plus exactly those bytes per non-empty log.",
+         "the in-process variant owns time but not the two compressor OS threads; the real-time variant judges tasks reported success", "4/C08"),
+ "C13": ("fault_enumeration", "crash-point enumeration via guarded points + property-based timed SIGKILL",
+         "For generated histories and victims, the victim's guarded points are recorded and the run is then killed at each (point, hit) from a restored pre-state, plus SIGKILLs at generated fractions of its duration; checkpoint/result/log observations must equal the pre-state (or, from the pointer write on, the complete victim), and the next run must succeed.",
+         "crash points are the guarded points plus random kill times; unsynced-data (power loss) semantics are out of scope", "4/C13"),
 }
 
 NOT_YET = {}
